@@ -126,16 +126,38 @@ def _child(args, crash, delays, wfd):
     os._exit(code)
 
 
-def run_tool(args, crash=None, delays=None, timeout=600):
-    """Run the CLI in a forked child. Returns dict(status=exit code or -signal, reports=[...])."""
+_FRESH_BOOT = (
+    "import sys, json\n"
+    "sys.path[:0] = json.loads(sys.argv[1])\n"
+    "from harness.faults.cli_crash import _child\n"
+    "cfg = json.loads(sys.argv[2])\n"
+    "_child(cfg['args'], cfg['crash'], cfg['delays'], int(sys.argv[3]))\n"
+)
+
+
+def run_tool(args, crash=None, delays=None, timeout=600, fresh=None):
+    """Run the CLI in a forked child or, with fresh=<hash seed>, in a new interpreter started with that
+    PYTHONHASHSEED (a real re-invocation does not share the string-hash salt, ids or imports of an earlier one).
+    Returns dict(status=exit code or -signal, reports=[...])."""
     rfd, wfd = os.pipe()
-    pid = os.fork()
-    if pid == 0:
-        os.close(rfd)
-        try:
-            _child(list(args), crash, delays, wfd)
-        finally:
-            os._exit(5)
+    proc = None
+    if fresh is not None:
+        import subprocess
+
+        from . import fresh as fr
+
+        cfg = {"args": [str(a) for a in args], "crash": crash, "delays": delays}
+        proc = subprocess.Popen([sys.executable, "-c", _FRESH_BOOT, json.dumps(fr.tree_paths()), json.dumps(cfg), str(wfd)],
+                                env=fr.fresh_env(fresh), pass_fds=[wfd], stdout=subprocess.DEVNULL, stderr=subprocess.DEVNULL)
+        pid = proc.pid
+    else:
+        pid = os.fork()
+        if pid == 0:
+            os.close(rfd)
+            try:
+                _child(list(args), crash, delays, wfd)
+            finally:
+                os._exit(5)
     os.close(wfd)
     os.set_blocking(rfd, False)
     chunks = []
@@ -151,13 +173,22 @@ def run_tool(args, crash=None, delays=None, timeout=600):
             pass
         if status is not None:
             break
-        done, st = os.waitpid(pid, os.WNOHANG)
-        if done:
-            status = os.WEXITSTATUS(st) if os.WIFEXITED(st) else -os.WTERMSIG(st)
-            continue  # drain what is left (orphaned DataLoader workers may keep the pipe open)
+        if proc is not None:
+            rc = proc.poll()
+            if rc is not None:
+                status = rc
+                continue
+        else:
+            done, st = os.waitpid(pid, os.WNOHANG)
+            if done:
+                status = os.WEXITSTATUS(st) if os.WIFEXITED(st) else -os.WTERMSIG(st)
+                continue  # drain what is left (orphaned DataLoader workers may keep the pipe open)
         if time.time() - t0 > timeout:
             os.kill(pid, 9)
-            os.waitpid(pid, 0)
+            if proc is not None:
+                proc.wait()
+            else:
+                os.waitpid(pid, 0)
             os.close(rfd)
             # a time budget hit is inconclusive, never a violation
             from ..core import HarnessError
